@@ -701,6 +701,7 @@ class VSerial:
         self.fault = None          # exception instance to raise from read once the inbox is drained (EOF / IO error)
         self.write_fault_after = None
         self.write_fault_late = None
+        self.write_fault_once = None
         self.writes = []           # (t, bytes)
         self.reads = []            # (t, bytes)
         self.device = device
@@ -754,6 +755,10 @@ class VSerial:
             S.emit("write_rejected", data=bytes(data).hex())
             raise serial.PortNotOpenError()
         self.nwrites += 1
+        if self.write_fault_once is not None and self.nwrites == self.write_fault_once[0]:
+            # a transient failure of exactly this write, before any byte went out (e.g. a write time-out)
+            S.emit("write_fault", data=bytes(data).hex(), once=True)
+            raise getattr(serial, self.write_fault_once[1])("write failed (once)")
         if self.write_fault_after is not None and self.nwrites > self.write_fault_after:
             S.emit("write_fault", data=bytes(data).hex())
             raise serial.SerialException("write failed")
